@@ -117,6 +117,8 @@ type Forbid struct {
 	Writes  []string // Type.Field: fields that only exempt functions may write
 	Reads   []string // Type.Field: fields that nothing reachable from the From functions may read
 	From    []string // root functions (ssa keys relative to the package, e.g. (*BaseTransaction).hash)
+	Cover     []string // struct types whose codec must cover every field (`all`: every type with both methods)
+	Transient []string // Type.field: fields deliberately not part of the codec
 	File    string
 	Line    int
 }
@@ -306,7 +308,7 @@ func (cs *ContractSet) loadFile(path, pkg string) error {
 			mode := ""
 			for _, f := range strings.Fields(rest) {
 				switch f {
-				case "props", "pkg", "func", "except", "write", "read", "from":
+				case "props", "pkg", "func", "except", "write", "read", "from", "cover", "transient":
 					mode = f
 				default:
 					switch mode {
@@ -323,6 +325,13 @@ func (cs *ContractSet) loadFile(path, pkg string) error {
 						fb.Reads = append(fb.Reads, strings.Trim(f, ","))
 					case "from":
 						fb.From = append(fb.From, strings.Trim(f, ","))
+					case "cover":
+						// `forbid props Cxx cover T1 T2 … transient T.f …`: every field of the struct types (or of every
+						// struct type of the package with Serialize and Deserialize methods when the list is `all`) is read
+						// by something reachable from Serialize and written by something reachable from Deserialize
+						fb.Cover = append(fb.Cover, strings.Trim(f, ","))
+					case "transient":
+						fb.Transient = append(fb.Transient, strings.Trim(f, ","))
 					case "write":
 						// `forbid props Cxx write Type.Field ... except F G`: only the exempt functions may
 						// store to (or take the address of) these fields
@@ -336,10 +345,15 @@ func (cs *ContractSet) loadFile(path, pkg string) error {
 			// `auto inverse props C21 [claims ...]`: synthesize a thin contract for every function
 			// of this package that appends change pairs to a utils.History
 			fs := strings.Fields(rest)
-			if len(fs) < 1 || (fs[0] != "inverse" && fs[0] != "decoders") {
-				return errf("auto inverse|decoders props Cxx")
+			if len(fs) < 1 || (fs[0] != "inverse" && fs[0] != "decoders" && fs[0] != "loopvars") {
+				return errf("auto inverse|decoders|loopvars props Cxx")
 			}
 			a := &AutoSpec{PkgPath: pkg, File: path, Line: l.line, Claims: []string{"inverse"}, Kind: fs[0]}
+			if fs[0] == "loopvars" {
+				// every counting loop of every deserialize* function: the counter is changed only by its own
+				// increment (obligation loopK.counter), so a decoder reads exactly as many entries as announced
+				a.Claims = []string{"loopvar"}
+			}
 			if fs[0] == "decoders" {
 				// thin safety contracts for every Deserialize* function of the package
 				a.Claims = []string{"nopanic", "alloc"}
